@@ -3,15 +3,20 @@
 package main
 
 import (
+	"encoding/json"
 	"flag"
 	"fmt"
+	"io/ioutil"
 	"math/rand"
 	"os"
+	"sort"
+	"strings"
 	"sync"
 	"time"
 
 	"github.com/Comcast/rulio/core"
 	"github.com/Comcast/rulio/storage/bolt"
+	"verif/harness/enc"
 	"verif/harness/world"
 )
 
@@ -80,8 +85,14 @@ func main() {
 		ttl    = flag.String("ttl", "all", "location cache TTL for -via system: never|1ms|forever|all (rotate)")
 		cronk  = flag.String("cron", "rec", "cron service for -via system: rec | rec-ephemeral | internal | all (rotate)")
 		check  = flag.String("check", "both", "existence checking for -via system: on|off|both (rotate)")
+		script = flag.String("script", "", "execute the histories TLC wrote to this file (one JSON list of Engine operations per line) instead of generating any")
+		t0     = flag.Int64("t0", 1000, "the specification's initial clock value in -script histories (numbers t0..t0+99 in documents are times)")
 	)
 	flag.Parse()
+	if *script != "" {
+		runScripts(*script, *state, *out, *par, *t0)
+		return
+	}
 	if *prof == "boltalias" {
 		boltAlias(*state)
 		return
@@ -277,4 +288,132 @@ func boltAlias(state string) {
 		}
 	}
 	fmt.Println("boltalias ok")
+}
+
+// runScripts executes operation histories generated by TLC from the specification
+// (EngineMC in simulation mode, Gen_*.cfg) on the real code and records them like any
+// other trace.  The specification's clock starts at t0: a number in t0..t0+99 inside a
+// document is a time and is shifted to the real clock; a Tick waits for the next second.
+func runScripts(file, state, out string, par int, t0 int64) {
+	data, err := ioutil.ReadFile(file)
+	if err != nil {
+		fmt.Fprintln(os.Stderr, err)
+		os.Exit(2)
+	}
+	var hists [][]map[string]interface{}
+	for _, line := range strings.Split(string(data), "\n") {
+		if strings.TrimSpace(line) == "" {
+			continue
+		}
+		var h []map[string]interface{}
+		if err := json.Unmarshal([]byte(line), &h); err != nil {
+			fmt.Fprintln(os.Stderr, "script:", err)
+			os.Exit(2)
+		}
+		hists = append(hists, h)
+	}
+	rec := world.NewRecorder(3)
+	states := []string{"indexed", "linear"}
+	if state != "both" {
+		states = []string{state}
+	}
+	sem := make(chan bool, par)
+	var wg sync.WaitGroup
+	var mu sync.Mutex
+	voided, ops := 0, 0
+	for i, h := range hists {
+		for _, st := range states {
+			wg.Add(1)
+			sem <- true
+			go func(i int, st string, h []map[string]interface{}) {
+				defer wg.Done()
+				defer func() { <-sem }()
+				locs := map[string]bool{}
+				for _, o := range h {
+					locs[o["loc"].(string)] = true
+					if ns, ok := o["names"].([]interface{}); ok {
+						for _, n := range ns {
+							locs[n.(string)] = true
+						}
+					}
+				}
+				names := []string{}
+				for l := range locs {
+					names = append(names, l)
+				}
+				sort.Strings(names)
+				for attempt := 0; attempt < 3; attempt++ {
+					ctx := core.NewContext("verif")
+					ctx.Verbosity = core.NOTHING
+					ms, _ := core.NewMemStorage(ctx)
+					w, err := world.NewWorld(world.Config{State: st, Store: "mem", MaxFacts: 3, Locs: names}, rec, ms)
+					if err != nil {
+						fmt.Fprintln(os.Stderr, "world:", err)
+						os.Exit(2)
+					}
+					real0 := world.WaitMidSecond()
+					var shift func(x interface{}) interface{}
+					shift = func(x interface{}) interface{} {
+						switch v := x.(type) {
+						case float64:
+							if v >= float64(t0) && v < float64(t0+100) && v == float64(int64(v)) {
+								return float64(real0 + int64(v) - t0)
+							}
+						case map[string]interface{}:
+							m := map[string]interface{}{}
+							for k, e := range v {
+								m[k] = shift(e)
+							}
+							return m
+						case []interface{}:
+							l := []interface{}{}
+							for _, e := range v {
+								l = append(l, shift(e))
+							}
+							return l
+						}
+						return x
+					}
+					n := 0
+					for _, o := range h {
+						name := o["op"].(string)
+						if name == "Tick" {
+							time.Sleep(time.Duration(1e9-time.Now().Nanosecond()) * time.Nanosecond)
+							continue
+						}
+						op := world.Op{Op: name, Loc: o["loc"].(string), Id: o["id"].(string), Inh: o["inh"] == true,
+							WK: o["wk"].(string), RK: o["rk"].(string), Flag: o["flag"] == true}
+						if v, ok := shift(enc.Decode(o["val"])).(map[string]interface{}); ok {
+							op.Val = v
+						}
+						if ns, ok := o["names"].([]interface{}); ok {
+							for _, x := range ns {
+								op.Names = append(op.Names, x.(string))
+							}
+							sort.Strings(op.Names)
+						}
+						w.Do(op)
+						n++
+					}
+					if w.Void() {
+						mu.Lock()
+						voided++
+						mu.Unlock()
+						continue
+					}
+					mu.Lock()
+					ops += n
+					mu.Unlock()
+					rec.Append(w.Events)
+					return
+				}
+			}(i, st, h)
+		}
+	}
+	wg.Wait()
+	if err := rec.Write(out, map[string]interface{}{"profile": "script", "seed": 0}); err != nil {
+		fmt.Fprintln(os.Stderr, err)
+		os.Exit(2)
+	}
+	fmt.Printf("events=%d voided=%d histories=%d ops=%d out=%s\n", rec.Len(), voided, len(hists), ops, out)
 }
